@@ -28,11 +28,12 @@ class Unsupported(Exception):
 
 
 class Tok(object):
-    __slots__ = ('kind', 'val')
+    __slots__ = ('kind', 'val', 'dep')
 
-    def __init__(self, kind='DEF', val=None):
+    def __init__(self, kind='DEF', val=None, dep=None):
         self.kind = kind
         self.val = val
+        self.dep = dep          # dependency footprint: frozenset of labels of the input cells this value was computed from (None = not tracked)
 
     def __repr__(self):
         return self.kind
@@ -293,12 +294,15 @@ class SK(object):
         if isinstance(a, Gap) and isinstance(b, Gap) and op in (o.add, o.sub):
             return Gap(op(a.mag, b.mag))
         if isinstance(a, Tok) or isinstance(b, Tok):
+            dep = None
             for x in (a, b):
                 if isinstance(x, Tok) and x.kind == 'PH0':
                     self.ph0_reads.append((node, self.cur_stmt))
                 if isinstance(x, Tok) and x.kind == 'PHN':
                     raise Violation('SK2', 'None placeholder used in arithmetic', node)
-            return DEF()
+                if isinstance(x, Tok) and x.dep is not None:
+                    dep = x.dep if dep is None else (dep | x.dep)
+            return Tok('DEF', dep=dep)
         try:
             return op(a, b)
         except ZeroDivisionError:
@@ -732,8 +736,20 @@ def _int(sk, n, x):
 
 
 # ====================================================================================== helpers for drivers
-def pts(n, dim):
+def pts(n, dim, labelled=False):
+    if labelled:
+        return [[Tok('DEF', dep=frozenset([k])) for _ in range(dim)] for k in range(n)]
     return [[DEF() for _ in range(dim)] for _ in range(n)]
+
+
+def footprint(cell):
+    """union of the dependency footprints of the coordinates of a point (None if any coordinate is untracked)"""
+    out = frozenset()
+    for c in cell:
+        if not isinstance(c, Tok) or c.dep is None:
+            return None
+        out |= c.dep
+    return out
 
 
 def floats(n):
@@ -844,4 +860,27 @@ def c08_rows(m, run):
             if foreign:
                 raise Violation('SK4', 'a zero-filled row is consumed before it is computed', foreign[0][0])
         t.add((deg, dim), run_case(m, 'helpers.degree_reduction', [deg, pts(deg + 1, dim)], {}, post=post))
+    t.finish('geomdl/helpers.py in helpers.degree_reduction')
+    # dependency footprints of Eq. 5.41/5.42: the forward recurrence Q_i = (P_i - a_i Q_{i-1}) / (1 - a_i) makes Q_i depend on P_0..P_i,
+    # the backward one Q_i = (P_{i+1} - (1 - a_{i+1}) Q_{i+1}) / a_{i+1} on P_{i+1}..P_p, the middle point of an odd degree on all of them
+    t = Tally(run, 'SK5.dependency-footprint', 'helpers.degree_reduction :: which input points each reduced point is computed from', 'degree 2..9')
+    for deg in range(2, 10):
+        r = (deg - 1) // 2
+        odd = deg % 2 == 1
+        want = {0: frozenset([0]), deg - 1: frozenset([deg])}
+        last_fwd = (r - 1) if odd else r
+        for i in range(1, last_fwd + 1):
+            want[i] = frozenset(range(0, i + 1))
+        for i in range(deg - 2, r, -1):
+            want[i] = frozenset(range(i + 1, deg + 1))
+        if odd and deg > 1 and r not in (0, deg - 1):
+            want[r] = frozenset(range(0, deg + 1))
+
+        def post(sk, out, want=want, deg=deg):
+            for i, w in sorted(want.items()):
+                got = footprint(out[i])
+                if got is not None and got != w:
+                    raise Violation('SK5', 'reduced point %d is computed from the input points %s, the recurrence of Eq. 5.41 makes it depend on %s '
+                                           '(a step that reads the input point instead of the previously reduced one breaks the chain)' % (i, sorted(got), sorted(w)))
+        t.add((deg,), run_case(m, 'helpers.degree_reduction', [deg, pts(deg + 1, 3, labelled=True)], {}, post=post))
     t.finish('geomdl/helpers.py in helpers.degree_reduction')
